@@ -29,6 +29,7 @@ type Program struct {
 	OverrideList []string
 	intrinsics map[string]Intrinsic
 	LoadTime   time.Duration
+	BuildTime  time.Duration
 	RepoDir    string
 	pkgsRaw    []*packages.Package
 	funcInfo   sync.Map
@@ -100,11 +101,9 @@ func Load(repoDir, harnessDir string, pkgPaths []string) (*Program, error) {
 	for _, p := range prog.AllPackages() {
 		P.Pkgs[p.Pkg.Path()] = p
 	}
-	for _, p := range pkgs {
-		if sp := P.Pkgs[p.PkgPath]; sp != nil {
-			sp.Build()
-		}
-	}
+	tb := time.Now()
+	prog.Build()
+	P.BuildTime = time.Since(tb)
 	P.intrinsics = map[string]Intrinsic{}
 	registerIntrinsics(P)
 	// overrides declared in harness files
